@@ -99,25 +99,49 @@ def run (t : Tier) : Emit Unit := do
       | .panic => none
     emit "C14" (parseCase whole spec "framing")
   -- (3b) the same, systematically: every kind x every small declared length (0..12) and the lengths around the body's
-  for k in [0:25] do
-    let d ← liftGen (genDescriptorOfKind k)
+  for k in [0:27] do
+    -- 25, 26: the extension descriptor in both of its shapes (supplementary audio with a language code; unknown tag)
+    let pdx ← liftGen (randBytes 3)
+    let sa : DescriptorExtensionSupplementaryAudio := { editorialClassification := 3, hasLanguageCode := true, languageCode := [0x65, 0x6e, 0x67], mixType := true, privateData := pdx }
+    let ex25 : DescriptorExtension := { tag := descriptorTagExtensionSupplementaryAudio, supplementaryAudio := some sa }
+    let ex26 : DescriptorExtension := { tag := 0x09, unknown := some pdx }
+    let d25 : Descriptor := { tag := descriptorTagExtension, extension := some ex25 }
+    let d26 : Descriptor := { tag := descriptorTagExtension, extension := some ex26 }
+    let dk ← liftGen (genDescriptorOfKind (k % 25))
+    let d := if k = 25 then d25 else if k = 26 then d26 else dk
     let body := (writeDescriptor d).drop 2
     let rest ← liftGen (genDescriptors 30)
     let restBytes := writeDescriptors rest
     let lens := ((List.range 13) ++ [body.length - 1, body.length + 1, body.length + 7, 255]).eraseDups.filter (· ≤ 255)
     for declared in lens do
-      for pad in [0, 1] do
-        -- pad = 1: the descriptor is the last thing in the buffer (nothing follows to read into)
+     for variant in [0, 1, 2, 3, 4] do
+      for pad in [0, 1, 2, 3, 4] do
+        -- pad = 1: the descriptor is the last thing in the buffer (nothing follows to read into);
+        -- pad = 2, 3, 4: only a very short descriptor follows (a body parser that reads past the declared end then hits
+        -- the end of the buffer, while the loop itself could go on)
+        -- the body: the kind's own bytes (cut / filled up), all zero (every inner length 0), all 0xff (every flag set), the same two behind the body's own first byte (extension tag)
         let filler ← liftGen (randBytes (declared - body.length))
-        let content := (body ++ filler).take declared
-        let tail := if pad = 0 then restBytes else []
+        let content := if variant = 0 then (body ++ filler).take declared else if variant ≤ 2 then List.replicate declared (if variant = 1 then 0 else 0xff) else (body.take 1 ++ List.replicate declared (if variant = 3 then 0 else 0xff)).take declared
+        let tail : Bytes := match pad with
+          | 0 => restBytes | 1 => [] | 2 => [0x80, 0] | 3 => [0x81, 1, 0x55] | _ => [0x82, 0, 0x83, 0]
         let whole := packFields [(0xf, 4), (2 + content.length + tail.length, 12)] ++ [d.tag, declared] ++ content ++ tail
+        -- "the tail parses as it does alone"
+        let tailAlone := match parseDescriptors.run (packFields [(0xf, 4), (tail.length, 12)] ++ tail) with
+          | .ok (ds, _) => ds | _ => []
         let m := parseDescriptors.run whole
         let spec := match m with
-          | .ok (ds, _) => some s!"ok:off={whole.length}:{showDescs (ds.take 1 ++ (if pad = 0 then rest.map expectParsed else []))}"
+          | .ok (ds, _) => some s!"ok:off={whole.length}:{showDescs (ds.take 1 ++ tailAlone)}"
           | .err _ => some "err:other"
           | .panic => none
         emit "C14" (parseCase whole spec "framing-systematic")
+    -- the same descriptor with a small declared length, the buffer ending inside it (loop length still announcing it)
+    for declared in [0:13] do
+     for variant in [0, 1, 2, 3, 4] do
+      let filler ← liftGen (randBytes (declared - body.length))
+      let content := if variant = 0 then (body ++ filler).take declared else if variant ≤ 2 then List.replicate declared (if variant = 1 then 0 else 0xff) else (body.take 1 ++ List.replicate declared (if variant = 3 then 0 else 0xff)).take declared
+      for avail in [0:declared] do
+        let whole := packFields [(0xf, 4), (2 + declared, 12)] ++ [d.tag, declared] ++ content.take avail
+        emit "C14" (parseCase whole none "framing-truncated")
   -- (4) malformed: mutations, truncations at every offset, random bytes (model only)
   for _ in [0:300 * t.scale] do
     let ds ← liftGen (genDescriptors 80)
@@ -132,7 +156,56 @@ def run (t : Tier) : Emit Unit := do
     let bs ← liftGen (randBytes n)
     let l ← liftGen (randBelow (n + 4))
     emit "C14" (parseCase (packFields [(0xf, 4), (l, 12)] ++ bs) none "parse-random")
+  -- (4b) every kind, its loop cut at every offset (the lengths still announce the whole): a failed read inside a
+  --      descriptor must stay an error even when a later, shorter read would succeed on the bytes that are left
+  for k in [0:25] do
+    for _ in [0:(if t.quick then 1 else 6)] do
+      let d ← liftGen (genDescriptorOfKind k)
+      let bs := writeDescriptorsWithLength [d]
+      let bs := if bs.length > 80 then bs.take 80 else bs
+      for cut in [0:bs.length] do emit "C14" (parseCase (bs.take cut) none "kind-truncated")
+  -- (1b) the ends of the tag ranges: user-defined 0x80 and 0xfe, unknown 0xff / 0x7e / 0x00
+  for tg in [0x80, 0x81, 0xfd, 0xfe] do
+    let body ← liftGen (randBytes 7)
+    let d : Descriptor := { tag := tg, length := 7, userDefined := body }
+    emit "C14" (writeCase [d] (some (Spec.descLoopEncode [d])) "write-tag-range")
+    let bs := writeDescriptorsWithLength [d]
+    emit "C14" (parseCase bs (some s!"ok:off={bs.length}:{showDescs [expectParsed d]}") "parse-tag-range")
+  for tg in [0xff, 0x7e, 0x00, 0x01] do
+    let body ← liftGen (randBytes 5)
+    let d : Descriptor := { tag := tg, length := 5, unknown := some { content := body, tag := tg } }
+    emit "C14" (writeCase [d] (some (Spec.descLoopEncode [d])) "write-tag-range")
+    let bs := writeDescriptorsWithLength [d]
+    emit "C14" (parseCase bs (some s!"ok:off={bs.length}:{showDescs [expectParsed d]}") "parse-tag-range")
   -- (5) ill-formed values through the writers (uint8 truncation etc.): correspondence only
+  --     every kind several times (codes of 0..5 bytes where 3 are expected, nil sub-structs, blobs past 255 bytes)
+  for k in [0:25] do
+    for _ in [0:12 * t.scale] do
+      let d ← liftGen (genWildOfKind k)
+      emit "C14" (writeCase [d] none "write-wild-kind")
+  -- codes shorter / longer than their 3 bytes in every kind that has one (the writers pad with 0 / cut)
+  for k in [0:25] do
+    for n in [0, 1, 2, 4] do
+      let d ← liftGen (genDescriptorOfKind k)
+      let c ← liftGen (randBytes n)
+      let d := { d with
+        component := d.component.map fun x => { x with iso639LanguageCode := c },
+        extendedEvent := d.extendedEvent.map fun x => { x with iso639LanguageCode := c },
+        extension := d.extension.map fun x => { x with supplementaryAudio := x.supplementaryAudio.map fun y => { y with hasLanguageCode := true, languageCode := c } },
+        iso639LanguageAndAudioType := d.iso639LanguageAndAudioType.map fun x => { x with language := c },
+        localTimeOffset := d.localTimeOffset.map fun x => { x with items := x.items.map fun y => { y with countryCode := c } },
+        parentalRating := d.parentalRating.map fun x => { x with items := x.items.map fun y => { y with countryCode := c } },
+        shortEvent := d.shortEvent.map fun x => { x with language := c },
+        subtitling := d.subtitling.map fun x => { x with items := x.items.map fun y => { y with language := c } },
+        teletext := d.teletext.map fun x => { x with items := x.items.map fun y => { y with language := c } },
+        vbiTeletext := d.vbiTeletext.map fun x => { x with items := x.items.map fun y => { y with language := c } } }
+      emit "C14" (writeCase [d] none "write-short-code")
+  -- extension descriptors: unknown extension tag with and without content, supplementary audio tag without the struct
+  for et in [0x00, 0x05, 0x99] do
+    let u ← liftGen (randBytes 4)
+    emit "C14" (writeCase [{ tag := descriptorTagExtension, extension := some { tag := et, unknown := none } }] none "write-extension-nil")
+    emit "C14" (writeCase [{ tag := descriptorTagExtension, extension := some { tag := et, unknown := some u } }] none "write-extension-nil")
+  emit "C14" (writeCase [{ tag := descriptorTagExtension, extension := some { tag := descriptorTagExtensionSupplementaryAudio, supplementaryAudio := none } }] none "write-extension-nil")
   for _ in [0:100 * t.scale] do
     let ds ← liftGen genDescriptorsWild
     emit "C14" (writeCase ds none "write-wild")
